@@ -61,6 +61,21 @@ Theorem C18_heads_range : forall (g : graph) roots heads flt hi, wf g ->
                            ~ (exists r0, In r0 roots /\ anc g y r0) /\ flt y = true) x.
 Proof. exact heads_range_thm. Qed.
 
+(** ... and with ANY parent range (first parents only, all but the first, ...): the wanted
+    walk follows only the parents in the range ([rpar]), the unwanted side uses full ancestry.
+    The result is strictly descending and is a solution of the fixpoint characterisation
+    [rsel]: x is returned iff it passes the filter, is neither an ancestor of a root nor a
+    strict ancestor of a returned commit, and is reached from a head along followed parents
+    through commits that are themselves neither unwanted nor passing the filter - and that
+    characterisation has exactly one solution. *)
+Theorem C18_heads_range_restricted : forall (g : graph) rs hs flt lo hi, wf g ->
+  (exists r, heads_from_range_and_filter g rs hs lo hi flt = Some r /\ sdesc r /\
+             forall x, In x r <-> rsel g rs hs flt lo hi r x) /\
+  (forall r1 r2, (forall x, In x r1 <-> rsel g rs hs flt lo hi r1 x) ->
+                 (forall x, In x r2 <-> rsel g rs hs flt lo hi r2 x) ->
+                 forall x, In x r1 <-> In x r2).
+Proof. exact heads_range_restricted_thm. Qed.
+
 (** all_heads_pos: the positions that are nobody's parent = the maximal elements of the
     whole index, ascending. *)
 Theorem C18_all_heads : forall (g : graph), wf g ->
@@ -168,3 +183,4 @@ Print Assumptions C18_generation.
 Print Assumptions C18_codec_roundtrip.
 Print Assumptions C18_abs_flat.
 Print Assumptions C18_heads_range.
+Print Assumptions C18_heads_range_restricted.
